@@ -1071,21 +1071,30 @@ func (p *Parser) zshNumRange() bool {
 	// Peeking a handful of bytes here should be enough.
 	// TODO: This should loop for slow readers, e.g. those providing one byte at
 	// a time. Use a loop and test it with [testing/iotest.OneByteReader].
-	if int(p.bsp) >= len(p.bs) {
-		p.fill()
+	for {
+		rest := p.bs[p.bsp:]
+		n := len(rest)
+		for len(rest) > 0 && rest[0] >= '0' && rest[0] <= '9' {
+			rest = rest[1:]
+		}
+		if len(rest) > 0 {
+			if rest[0] != '-' {
+				return false
+			}
+			rest = rest[1:]
+			for len(rest) > 0 && rest[0] >= '0' && rest[0] <= '9' {
+				rest = rest[1:]
+			}
+			if len(rest) > 0 {
+				return rest[0] == '>'
+			}
+		}
+		// Ran out of buffered bytes before deciding; ask for more,
+		// giving up on absurdly long ranges or at the end of the input.
+		if n >= 64 || p.fill() == 0 {
+			return false
+		}
 	}
-	rest := p.bs[p.bsp:]
-	for len(rest) > 0 && rest[0] >= '0' && rest[0] <= '9' {
-		rest = rest[1:]
-	}
-	if len(rest) == 0 || rest[0] != '-' {
-		return false
-	}
-	rest = rest[1:]
-	for len(rest) > 0 && rest[0] >= '0' && rest[0] <= '9' {
-		rest = rest[1:]
-	}
-	return len(rest) > 0 && rest[0] == '>'
 }
 
 func (p *Parser) advanceLitNone(r rune) {
